@@ -739,4 +739,15 @@ def replay(pid, path):
         print('VIOLATION property=%s replay=%s' % (pid, path))
         print('  clauses: %s view: %s' % (bad[0][1][1], json.dumps(bad[0][0]['events'][0]['view'])))
         return common.EXIT_VIOLATION
-    raise common.MachineryError('no replay for %s' % pid)
+    wd = os.path.join(common.scratch('fs-replay'), 'r')
+    t = run_schedule((case['backend'], case['keys'], case['scenario'], case['init'], case['ops'], case['schedule'], wd,
+                      case.get('model_predicts_violation'), case.get('shared_handle')))
+    if 'error' in t:
+        raise common.MachineryError(t['error'])
+    verdicts, _ = common.validate_traces('FsTrace', [{'events': t['events']}], [pid])
+    if verdicts[0] is None:
+        print('replay: accepted on the current tree')
+        return common.EXIT_OK
+    print('VIOLATION property=%s replay=%s' % (pid, path))
+    print('  clauses: %s results: %s' % (verdicts[0][1], json.dumps(t['meta']['results'])[:400]))
+    return common.EXIT_VIOLATION
